@@ -7,7 +7,7 @@ Box construction only compares and selects coordinates, so the statements below 
 non-NaN floats (comparisons of floats are exact).  `bbox_contains_image` is the statement that the box built from
 the images of the 8 corners contains the image of every point of the box (an affine coordinate function on a box is
 extremal at a corner); dropping one corner from `transform_bbox` breaks its proof.
-Primitive bounds (triangle / sphere / cylinder) are in `Props/C15b.lean`.
+Primitive bounds (triangle / sphere / cylinder) and world bounds are in `Props/C15b.lean`.
 -/
 namespace G3d.C15
 open G3d Num
